@@ -19,6 +19,15 @@ package main
 // X-Forwarded-Proto or Forwarded (one of them, with an explicit proto): every
 // $request_* field is judged against the request as the client sent it.
 //
+// Numbers are generated at the places where a hand-written formatter changes its
+// behaviour: body sizes, durations, unix timestamps and statuses at 10^k / 10^k-1,
+// years at the padding boundaries, an STS max-age whose int32 truncation is an
+// extreme of the int32 range, uuid bytes at the nibble boundaries, TLS version /
+// cipher-suite numbers at the hex digit boundaries (real suites selected on the
+// listener, and a connection state handed to the handler that names generated
+// numbers). The reference is always fmt/strconv on the number fabio formats.
+// Upstreams may send 103 Early Hints first: the status of a request is the final one.
+//
 // A second, statement-level part (chosen per run from the scenario tape): 2-6
 // tasks call Logger.Log of one logger.New(recording writer, format) directly on
 // generated logger.Event values - every shape the doc comments of Event allow,
@@ -76,27 +85,36 @@ type c20Route struct {
 }
 
 type c20Scenario struct {
-	Format        string        `json:"format"`
-	Parts         []c20Part     `json:"-"`
-	Epoch         string        `json:"clock_epoch"`
-	ZoneName      string        `json:"clock_zone"`
-	ZoneOffset    int           `json:"clock_zone_offset_s"`
-	Routes        []c20Route    `json:"routes"`
-	TLS           bool          `json:"tls_listener,omitempty"`
-	TLS12         bool          `json:"listener_max_tls12,omitempty"`
-	STSMaxAge     int           `json:"sts_max_age,omitempty"`
-	STSSub        bool          `json:"sts_subdomains,omitempty"`
-	STSPreload    bool          `json:"sts_preload,omitempty"`
-	RequestID     string        `json:"request_id_header,omitempty"`
-	HeaderTimeout time.Duration `json:"response_header_timeout,omitempty"`
-	Clients       []h2Client    `json:"clients,omitempty"`
-	Direct        *c20Direct    `json:"direct_logger_calls,omitempty"` // the statement-level part: no proxy, tasks call Logger.Log
-	FineYields    bool          `json:"yields_inside_number_formatter,omitempty"`
-	Stick         int           `json:"stick"`
+	Format     string     `json:"format"`
+	Parts      []c20Part  `json:"-"`
+	Epoch      string     `json:"clock_epoch"`
+	ZoneName   string     `json:"clock_zone"`
+	ZoneOffset int        `json:"clock_zone_offset_s"`
+	Routes     []c20Route `json:"routes"`
+	TLS        bool       `json:"tls_listener,omitempty"`
+	TLS12      bool       `json:"listener_max_tls12,omitempty"`
+	TLSSuite   uint16     `json:"listener_only_cipher_suite,omitempty"` // TLS 1.2 listener restricted to this suite (0: Go's choice)
+	// what the TLS connection state handed to the handler says instead of the negotiated values (request id -> values; 0: as negotiated)
+	TLSReported   map[string]c20TLSRep `json:"tls_state_reported_to_handler,omitempty"`
+	STSMaxAge     int                  `json:"sts_max_age,omitempty"`
+	STSSub        bool                 `json:"sts_subdomains,omitempty"`
+	STSPreload    bool                 `json:"sts_preload,omitempty"`
+	RequestID     string               `json:"request_id_header,omitempty"`
+	HeaderTimeout time.Duration        `json:"response_header_timeout,omitempty"`
+	Clients       []h2Client           `json:"clients,omitempty"`
+	Direct        *c20Direct           `json:"direct_logger_calls,omitempty"` // the statement-level part: no proxy, tasks call Logger.Log
+	FineYields    bool                 `json:"yields_inside_number_formatter,omitempty"`
+	Stick         int                  `json:"stick"`
 
 	epoch    time.Time
 	uuids    [][24]byte
 	fwdProto map[string]string // request id -> scheme named by the X-Forwarded-Proto / Forwarded header the client sent
+}
+
+// c20TLSRep: version / cipher suite numbers reported by the connection state (any uint16 is a possible report of crypto/tls)
+type c20TLSRep struct {
+	Version uint16 `json:"version,omitempty"`
+	Cipher  uint16 `json:"cipher_suite,omitempty"`
 }
 
 // the fields documented in the header comment of logger/logger.go, in that order,
@@ -126,7 +144,65 @@ var c20Suffixes = []string{"", "/", "/a", "/a/b", "/a;v=1", "/a,b", "/~u/-_.", "
 var c20Queries = []string{"", "", "a=1", "a=1&a=2&b", "x=%2F%20&y=+", "q=a%26b", "long=" + strings.Repeat("z", 1200)}
 var c20Hosts = []string{"fabio.sim", "www.example.com", "www.example.com:8080", "Mixed.Example.COM", "[2001:db8::f]:9999", "10.1.2.3"}
 var c20Statuses = []int{200, 200, 200, 201, 204, 301, 304, 400, 404, 418, 500, 503, 299, 999}
-var c20Delays = []time.Duration{0, 0, time.Millisecond, 1234567 * time.Nanosecond, 999999999 * time.Nanosecond, time.Second + 1, 1500 * time.Microsecond, 61*time.Second + 500*time.Microsecond, 999500 * time.Nanosecond, 2*time.Hour + 3*time.Nanosecond}
+var c20Delays = []time.Duration{0, 0, time.Millisecond, 1234567 * time.Nanosecond, 999999999 * time.Nanosecond, time.Second + 1, 1500 * time.Microsecond, 61*time.Second + 500*time.Microsecond, 999500 * time.Nanosecond, 2*time.Hour + 3*time.Nanosecond,
+	// -1: a power of ten of nanoseconds (1 ns .. 1000 s) or the nanosecond before it: every digit position of S.sss rolls over
+	-1, -1, -1, time.Minute - 1, time.Minute, time.Hour - 1, time.Hour}
+
+// c20Pow10 returns 10^k.
+func c20Pow10(k int) int64 {
+	n := int64(1)
+	for ; k > 0; k-- {
+		n *= 10
+	}
+	return n
+}
+
+// c20GenPow10 picks 10^k or 10^k-1 for a k in lo..hi: the values at which a decimal rendering gains a digit.
+func c20GenPow10(g *simcore.Tape, lo, hi int) int64 {
+	n := c20Pow10(g.Range(lo, hi))
+	if g.Bool() {
+		n--
+	}
+	return n
+}
+
+// body sizes at which $response_body_size gains a digit
+var c20EdgeSizes = []int{10, 9, 99, 100, 999, 1000, 9999, 10000}
+
+// configured STS max-age values: the number handed to the 32-bit formatter is int32(max-age), so the boundaries of the
+// int32 range (and what lies a multiple of 2^32 above them) are the extreme inputs of that formatter
+var c20EdgeMaxAges = []int64{1, 9, 10, math.MaxInt32, math.MaxInt32 + 1, math.MaxUint32, math.MaxUint32 + 1, math.MaxUint32 + 2, math.MaxInt32 + 1 + (1 << 32)}
+
+func c20GenMaxAge(g *simcore.Tape) int {
+	switch g.Intn(5) {
+	case 0:
+		return 31536000
+	case 1, 2:
+		return int(simcore.Pick(g, c20EdgeMaxAges))
+	case 3:
+		// powers of ten and their predecessors, as a positive and as a negative int32 (2^32 - n truncates to -n)
+		n := c20GenPow10(g, 1, 9)
+		if g.Bool() {
+			return int(1<<32 - n)
+		}
+		return int(n)
+	}
+	return 1 + g.Intn(1<<32+5)
+}
+
+// cipher suites a TLS 1.2 listener with an Ed25519 certificate can be restricted to and Go's client offers by default
+var c20Suites = []uint16{tls.TLS_ECDHE_ECDSA_WITH_AES_128_GCM_SHA256, tls.TLS_ECDHE_ECDSA_WITH_AES_256_GCM_SHA384, tls.TLS_ECDHE_ECDSA_WITH_CHACHA20_POLY1305_SHA256,
+	tls.TLS_ECDHE_ECDSA_WITH_AES_128_CBC_SHA, tls.TLS_ECDHE_ECDSA_WITH_AES_256_CBC_SHA}
+
+// 16-bit numbers at the digit boundaries of a four-digit hex rendering (0: a PRNG value)
+var c20EdgeU16 = []int{0xffff, 0x0001, 0x0009, 0x000a, 0x000f, 0x0010, 0x009f, 0x00a0, 0x00ff, 0x0100, 0x0fff, 0x1000, 0x7fff, 0x8000, 0x9999, 0xaaaa, 0xfffe, 0x0305, 0x1234, 0xabcd, 0xfedc, 0, 0, 0}
+
+func c20GenU16(g *simcore.Tape) uint16 {
+	if v := simcore.Pick(g, c20EdgeU16); v != 0 {
+		return uint16(v)
+	}
+	return uint16(1 + g.Intn(0xffff))
+}
 
 // Forwarded header values a client-side proxy sends (RFC 7239 forwarded-pairs, one element, proto named once)
 var c20FwdForms = []string{"proto=%s", "for=203.0.113.7;proto=%s", "for=203.0.113.7; proto=%s", "for=203.0.113.7;proto=%s;by=203.0.113.1", "proto=%s; for=\"[2001:db8::77]\"", "for=_hidden; httpproto=http/1.0; proto=%s"}
@@ -234,7 +310,7 @@ func c20HasField(parts []c20Part, prefix string) bool {
 }
 
 func c20GenEpoch(g *simcore.Tape, unixFields bool) time.Time {
-	switch g.Intn(12) {
+	switch g.Intn(15) {
 	case 0:
 		return time.Date(2000, 1, 1, 0, 0, 0, 0, time.UTC) // the bubble clock itself
 	case 1:
@@ -255,6 +331,18 @@ func c20GenEpoch(g *simcore.Tape, unixFields bool) time.Time {
 		if !unixFields {
 			// beyond four-digit years (unix-epoch fields are not defined there: excluded by construction)
 			return time.Date(10000+g.Intn(20000), time.Month(1+g.Intn(12)), 1+g.Intn(28), g.Intn(24), g.Intn(60), g.Intn(60), g.Intn(1000000000), time.UTC)
+		}
+	case 9, 10:
+		// the unix time in nanoseconds is a power of ten or one less: $time_unix_* gain a digit
+		return time.Unix(0, c20GenPow10(g, 1, 18)).UTC()
+	case 11:
+		if !unixFields {
+			// the first and the last instants of the years at which the zero-padded four-digit year gains a digit
+			y := simcore.Pick(g, []int{999, 1000, 9999, 99, 100, 9, 10, 1})
+			if g.Bool() {
+				return time.Date(y, 1, 1, 0, 0, 0, g.Intn(2), time.UTC)
+			}
+			return time.Date(y, 12, 31, 23, 59, 59, 999999000+g.Intn(1000), time.UTC)
 		}
 	}
 	return time.Date(1970+g.Intn(292), time.Month(1+g.Intn(12)), 1+g.Intn(28), g.Intn(24), g.Intn(60), g.Intn(60), g.Intn(1000000000), time.UTC)
@@ -335,13 +423,18 @@ func c20Gen(g *simcore.Tape, thorough bool) *c20Scenario {
 	for j := 0; j < nr; j++ {
 		sc.Routes = append(sc.Routes, c20GenRoute(g, j))
 	}
-	sc.TLS = g.Chance(12)
+	sc.TLS = g.Chance(20)
+	tlsReported := false
 	if sc.TLS {
 		sc.TLS12 = g.Bool()
-		if g.Chance(60) {
-			sc.STSMaxAge = simcore.Pick(g, []int{31536000, 1, 9, 10, 2147483647, 1000000000, 1 + g.Intn(1<<30)})
+		if sc.TLS12 && g.Bool() {
+			sc.TLSSuite = simcore.Pick(g, c20Suites)
+		}
+		if g.Chance(75) {
+			sc.STSMaxAge = c20GenMaxAge(g)
 			sc.STSSub, sc.STSPreload = g.Bool(), g.Bool()
 		}
+		tlsReported = g.Chance(40)
 	}
 	if g.Chance(25) {
 		sc.RequestID = "X-Request-Id"
@@ -413,7 +506,26 @@ func c20Gen(g *simcore.Tape, thorough bool) *c20Scenario {
 			}
 			rq.BodyLen = len(rq.Body)
 			rq.Chunks = c07GenChunks(g, len(rq.Body)+100)
+			if tlsReported && g.Chance(70) {
+				// the connection state the handler gets names another protocol version / cipher suite than the handshake agreed on
+				var rep c20TLSRep
+				switch g.Intn(3) {
+				case 0:
+					rep.Cipher = c20GenU16(g)
+				case 1:
+					rep.Version = c20GenU16(g)
+				case 2:
+					rep.Version, rep.Cipher = c20GenU16(g), c20GenU16(g)
+				}
+				if sc.TLSReported == nil {
+					sc.TLSReported = map[string]c20TLSRep{}
+				}
+				sc.TLSReported[rq.ID] = rep
+			}
 			rs := h2Resp{Status: simcore.Pick(g, c20Statuses), Delay: simcore.Pick(g, c20Delays)}
+			if rs.Delay < 0 {
+				rs.Delay = time.Duration(c20GenPow10(g, 0, 12))
+			}
 			if rq.Method == "HEAD" && (rs.Status == 204 || rs.Status == 304) {
 				rs.Status = 200 // a bodiless status answering HEAD would be rendered without Content-Length (see below)
 			}
@@ -424,10 +536,16 @@ func c20Gen(g *simcore.Tape, thorough bool) *c20Scenario {
 				rs.Headers = append(rs.Headers, h2Header{"X-Up-A", simcore.Pick(g, c20HdrVals[:7])})
 			}
 			if !h2NoBody(rq.Method, rs.Status) {
-				switch g.Intn(4) {
+				switch g.Intn(5) {
 				case 0:
 				case 1:
 					rs.Body = g.Bytes(g.Range(1, 300))
+				case 2:
+					n := simcore.Pick(g, c20EdgeSizes)
+					if thorough && g.Bool() {
+						n = int(c20GenPow10(g, 1, 5))
+					}
+					rs.Body = g.Bytes(n)
 				default:
 					rs.Body = g.Bytes(g.Range(1, maxBody))
 				}
@@ -438,6 +556,10 @@ func c20Gen(g *simcore.Tape, thorough bool) *c20Scenario {
 			}
 			rs.BodyLen = len(rs.Body)
 			rs.Chunks = c07GenChunks(g, len(rs.Body)+100)
+			// informational responses (103 Early Hints) before the final one: the status of the request is the final one
+			if g.Chance(15) {
+				rs.Early = g.Range(1, 2)
+			}
 			if faults && g.Chance(35) {
 				if g.Bool() {
 					rs.Hang = true
@@ -454,8 +576,18 @@ func c20Gen(g *simcore.Tape, thorough bool) *c20Scenario {
 		for i := 0; i < id; i++ {
 			var u [24]byte
 			copy(u[:], g.Bytes(24))
-			if i == 0 && g.Bool() {
+			switch {
+			case i == 0 && g.Bool():
 				u = [24]byte{} // leading zero nibbles must be printed
+			case i == 1 && g.Bool():
+				for j := range u {
+					u[j] = 0xff
+				}
+			case g.Chance(15):
+				// both nibbles at the 9/a and f/0 boundaries of the hex digits
+				for j := range u {
+					u[j] = []byte{0x09, 0x0a, 0x90, 0xa0, 0x0f, 0xf0, 0x10, 0x01, 0x9a, 0xa9}[(i+j)%10]
+				}
 			}
 			sc.uuids = append(sc.uuids, u)
 		}
@@ -553,10 +685,14 @@ var c20DURLHosts = []string{"up0.sim:8080", "backend0", "198.51.100.7:9000", "[2
 var c20DSchemes = []string{"http", "https", "ws", "wss", ""}
 var c20DProtos = []string{"HTTP/1.1", "HTTP/1.0", "HTTP/2.0", ""}
 var c20DURIs = []string{"/", "/p0/a?a=1", "*", "", "/p0/a;v=1?x=%2F%20&y=+", "http://www.example.com/absolute?q", "/" + strings.Repeat("seg/", 300)}
-var c20DStatuses = []int{200, 0, 1, 99, 100, 404, 599, 999, 1000}
-var c20DSizes = []int64{0, 1, 1023, 1 << 31, 1<<32 + 5, 1 << 40, 999999999999, 1<<40 - 1}
+
+// -1: a PRNG value; -2: a power of ten or its predecessor
+var c20DStatuses = []int{200, 0, 1, 99, 100, 404, 599, 999, -1, 1000, 9, 10, -2, 65535, 65536, math.MaxInt32}
+var c20DSizes = []int64{0, 1, 1023, 1 << 31, 1<<32 + 5, 1 << 40, -1, 1<<40 - 1, -2, -2, -2, math.MaxInt32, math.MaxUint32, math.MaxInt64 - 1, math.MaxInt64}
 var c20DDurs = []time.Duration{0, 1, 999, time.Microsecond, 999999 * time.Nanosecond, 1234567 * time.Nanosecond, 999999999 * time.Nanosecond, time.Second, 61*time.Second + 500*time.Microsecond,
-	2*time.Hour + 3*time.Nanosecond, 24 * 365 * time.Hour, 100 * 24 * 365 * time.Hour, math.MaxInt64 - 1, math.MaxInt64}
+	2*time.Hour + 3*time.Nanosecond, 24 * 365 * time.Hour, 100 * 24 * 365 * time.Hour, math.MaxInt64 - 1, math.MaxInt64,
+	// -2: a power of ten of nanoseconds (1 ns .. 10^18 ns) or the nanosecond before it
+	-2, -2, -2, time.Millisecond - 1, time.Millisecond, time.Minute - 1, time.Minute, time.Hour - 1, time.Hour}
 
 func c20GenDURL(g *simcore.Tape, host string) *c20DURL {
 	u := &c20DURL{Scheme: simcore.Pick(g, c20DSchemes), Host: host}
@@ -637,12 +773,18 @@ func c20GenDirect(g *simcore.Tape, sc *c20Scenario, thorough bool) {
 			ev.NoResponse = g.Chance(10)
 			if !ev.NoResponse {
 				ev.Status = simcore.Pick(g, c20DStatuses)
-				if ev.Status == 1000 {
+				switch ev.Status {
+				case -1:
 					ev.Status = g.Intn(1000)
+				case -2:
+					ev.Status = int(c20GenPow10(g, 1, 9))
 				}
 				ev.Size = simcore.Pick(g, c20DSizes)
-				if ev.Size == 999999999999 {
+				switch ev.Size {
+				case -1:
 					ev.Size = int64(g.Intn(1<<30)) << uint(g.Intn(11))
+				case -2:
+					ev.Size = c20GenPow10(g, 1, 18)
 				}
 			}
 			if !g.Chance(12) {
@@ -662,6 +804,9 @@ func c20GenDirect(g *simcore.Tape, sc *c20Scenario, thorough bool) {
 				z := simcore.Pick(g, c20Zones)
 				ev.Zone, ev.ZoneOffset = z.Name, z.Off
 				ev.Dur = simcore.Pick(g, c20DDurs)
+				if ev.Dur == -2 {
+					ev.Dur = time.Duration(c20GenPow10(g, 0, 18))
+				}
 				if !unix && g.Chance(8) {
 					ev.ZeroStart = true // the longest time span there is
 				}
@@ -761,6 +906,7 @@ type c20Event struct {
 	ipv6Cli  bool
 	hostOpt  bool
 	fwdProto bool
+	interim  int // informational responses the client received before the final one
 }
 
 func c20URI(rq *h2Req) string {
@@ -1091,6 +1237,8 @@ func c20Sig(ev *c20Event, field string) string {
 		return field + q
 	case (field == "$response_status" || field == "$response_body_size") && !ev.hasResp:
 		return field + "/no-response"
+	case (field == "$response_status" || field == "$response_body_size") && ev.interim > 0:
+		return field + "/after-informational-response"
 	}
 	return field
 }
@@ -1186,6 +1334,17 @@ func runC20(r *simcore.Run) {
 			obs.taskReq[name] = id
 			obs.remote[id] = req.RemoteAddr
 			if req.TLS != nil {
+				if rep, ok := sc.TLSReported[id]; ok {
+					// the handler is handed a connection state of its own that names other numbers
+					cs := *req.TLS
+					if rep.Version != 0 {
+						cs.Version = rep.Version
+					}
+					if rep.Cipher != 0 {
+						cs.CipherSuite = rep.Cipher
+					}
+					req.TLS = &cs
+				}
 				obs.tlsVer[id], obs.tlsSuit[id] = req.TLS.Version, req.TLS.CipherSuite
 			}
 			obs.mu.Unlock()
@@ -1220,6 +1379,9 @@ func runC20(r *simcore.Run) {
 		front = &tls.Config{Certificates: []tls.Certificate{zzSelfSigned()}, NextProtos: []string{"http/1.1"}}
 		if sc.TLS12 {
 			front.MaxVersion = tls.VersionTLS12
+		}
+		if sc.TLSSuite != 0 {
+			front.CipherSuites = []uint16{sc.TLSSuite}
 		}
 	}
 	e.serve(front)
@@ -1277,7 +1439,7 @@ func runC20(r *simcore.Run) {
 			if faulted {
 				r.Fault("upstream_silent_or_reset")
 			}
-			r.Tracef("exchange %s -> status=%d body=%d err=%v", rq.ID, res.Status, len(res.Body), res.Err)
+			r.Tracef("exchange %s -> interim=%v status=%d body=%d err=%v", rq.ID, res.Interim, res.Status, len(res.Body), res.Err)
 			if res.Err != nil || res.Status == 0 {
 				if !faulted {
 					r.Fail("response", "error", "%s: the client got no response: %v", what, res.Err)
@@ -1313,8 +1475,13 @@ func runC20(r *simcore.Run) {
 			ev := &c20Event{key: task + "#0", hasReq: true, method: rq.Method, uri: c20URI(rq), proto: "HTTP/1.1", hosts: []string{rq.Host},
 				remote: obs.remote[rq.ID], hasURL: true, scheme: "http", args: rq.Query, hasResp: true, status: res.Status, size: int64(len(res.Body)),
 				times: obs.clock[task], upAddr: rt.Host, upDef: c20DefaultPort(rt.Scheme), hasUp: true, upSch: rt.Scheme, service: rt.Service,
-				hostOpt: rt.HostOpt != ""}
+				hostOpt: rt.HostOpt != "", interim: len(res.Interim)}
 			ev.what = fmt.Sprintf("request %s %s (id %s) from %s via %s://%s", rq.Method, c20ClipN(c20URI(rq), 60), rq.ID, ev.remote, rt.Scheme, rt.Host)
+			if ev.interim > 0 {
+				// the status of the completed request is the final one the client received, whatever came before it
+				ev.what += fmt.Sprintf(", client received the informational responses %v first", res.Interim)
+				r.Probe("informational_response_before_final")
+			}
 			if rt.HostOpt != "" {
 				ev.what += " opts host=" + rt.HostOpt
 			}
@@ -1371,23 +1538,57 @@ func runC20(r *simcore.Run) {
 			}
 			if sc.TLS && len(seen) > 0 {
 				fwd := seen[0].Header.Get("Forwarded")
-				want := fmt.Sprintf("tlscipher=0x%04x", obs.tlsSuit[rq.ID])
-				if !strings.Contains(fwd, want) {
-					r.Fail("formatter", "hex16", "%s: Forwarded header %q does not carry %s", what, fwd, want)
-				}
-				if i := strings.Index(fwd, "tlsver=0x"); i >= 0 {
-					if wantv := fmt.Sprintf("tlsver=0x%04x", obs.tlsVer[rq.ID]); !strings.HasPrefix(fwd[i:], wantv) {
-						r.Fail("formatter", "hex16", "%s: Forwarded header %q does not carry %s", what, fwd, wantv)
+				// the parameter values fabio appends: tlscipher is the four-digit hex rendering of the suite number; tlsver is a
+				// name or, if it starts with a digit, the hex rendering of the version number
+				param := func(name string) string {
+					i := strings.LastIndex(fwd, name+"=")
+					if i < 0 {
+						return ""
 					}
+					v := fwd[i+len(name)+1:]
+					if j := strings.IndexAny(v, "; ,"); j >= 0 {
+						v = v[:j]
+					}
+					return v
+				}
+				if got, want := param("tlscipher"), fmt.Sprintf("0x%04x", obs.tlsSuit[rq.ID]); got != want {
+					r.Fail("formatter", "hex16", "%s: Forwarded header %q names tlscipher=%q, the connection state says suite %d: fmt renders that as %s", what, fwd, got, obs.tlsSuit[rq.ID], want)
+				}
+				if got, want := param("tlsver"), fmt.Sprintf("0x%04x", obs.tlsVer[rq.ID]); got != "" && got[0] >= '0' && got[0] <= '9' && got != want {
+					r.Fail("formatter", "hex16", "%s: Forwarded header %q names tlsver=%q, the connection state says version %d: fmt renders that as %s", what, fwd, got, obs.tlsVer[rq.ID], want)
+				}
+				if _, ok := sc.TLSReported[rq.ID]; ok {
+					r.Probe("hex16_reported_boundary_value")
 				}
 				r.Probe("hex16_compared")
 				if sc.STSMaxAge > 0 {
 					got := res.Header.Get("Strict-Transport-Security")
-					want := "max-age=" + strconv.Itoa(sc.STSMaxAge)
-					if got != want && !strings.HasPrefix(got, want+";") {
-						r.Fail("formatter", "itoa32", "%s: Strict-Transport-Security is %q, configured max-age %d", what, got, sc.STSMaxAge)
+					// the number fabio formats is int32(max-age): strconv's rendering of that number is the reference; the
+					// configured number itself, untruncated, is accepted as well (which of the two belongs there is not judged)
+					n32 := int32(sc.STSMaxAge)
+					ok := false
+					if got == "" {
+						// nothing was formatted at all: not a formatter's fault
+						ok = true
+						sig := "sts-header-missing"
+						if len(res.Interim) > 0 {
+							sig += "/after-informational-response"
+						}
+						r.Fail("response", sig, "%s: TLS listener with sts max-age %d: the response (status %d, informational responses before it: %v) has no Strict-Transport-Security header", what, sc.STSMaxAge, res.Status, res.Interim)
+					}
+					for _, n := range []int64{int64(n32), int64(sc.STSMaxAge)} {
+						want := "max-age=" + strconv.FormatInt(n, 10)
+						if got == want || strings.HasPrefix(got, want+";") {
+							ok = true
+						}
+					}
+					if !ok {
+						r.Fail("formatter", "itoa32", "%s: Strict-Transport-Security is %q, configured max-age %d, as int32 %d: strconv renders that as %q", what, got, sc.STSMaxAge, n32, strconv.FormatInt(int64(n32), 10))
 					}
 					r.Probe("itoa32_compared")
+					if n32 == math.MinInt32 || n32 == math.MaxInt32 || n32 == -1 {
+						r.Probe("itoa32_extreme_value")
+					}
 				}
 			}
 		}
